@@ -25,7 +25,9 @@ RULE = ("one case = one mesh (library structured generator or harness Delaunay g
         "each mechanism is exercised on its own. Non-trivial = the file carries at least one data array or sphere or contact "
         "edge; distinct = canonical hash of the case parameters (seeded).")
 ASSUMPTIONS = [
-    "the reader in vlib/oracles/c20_vtkparse.py implements the legacy-VTK 'simple legacy formats' grammar for ASCII unstructured grids",
+    "the reader in vlib/oracles/c20_vtkparse.py implements the legacy-VTK 'simple legacy formats' grammar for ASCII unstructured grids "
+    "(every worker first runs its self-test: a hand-written example file is accepted and 17 one-edit corruptions are each rejected "
+    "with the right clause; failure => inconclusive)",
     "exact comparison: Python's float() of the shortest-repr decimal token reproduces the double (float32 after a cast); "
     "field values supplied are finite",
     "meshes are valid (distinct node coordinates, straight-sided elements), so written points can be matched to mesh nodes by "
@@ -38,7 +40,7 @@ REQUIRED = {
             "point_arrays_checked": 100, "cell_arrays_checked": 60, "values_compared": 20000,
             "spheres_1+": 30, "edges_1+": 30, "writes_2+": 40, "cfg_spheres_and_nodal_and_rewrite": 10,
             "cfg_highorder_spheres": 10, "cfg_cellfields_and_edges": 10, "cfg_bare": 4, "cfg_uint64_padded": 4,
-            "kind_SCALARS": 40, "kind_VECTORS": 40, "kind_TENSORS": 40, "container_jax": 20,
+            "kind_SCALARS": 40, "kind_VECTORS": 40, "kind_TENSORS": 40, "container_jax": 20, "parser_selftest_runs": 1,
             "class:random": 10, "class:d11a_rewrite": 4, "class:d11b_highorder_spheres": 4, "class:d11c_celldata_edges": 4,
             "class:each_dtype": 11, "class:uint64_padded": 2, "class:bare": 2},
 }
@@ -63,10 +65,10 @@ def build_cases(tier, seed):
             c.update(kw)
             cases.append(c)
 
-    add("random", 40 if q else 2400, 5)
-    add("d11a_rewrite", 8 if q else 200, 4)
-    add("d11b_highorder_spheres", 8 if q else 200, 4)
-    add("d11c_celldata_edges", 8 if q else 200, 4)
+    add("random", 40 if q else 12000, 5)
+    add("d11a_rewrite", 8 if q else 600, 4)
+    add("d11b_highorder_spheres", 8 if q else 600, 4)
+    add("d11c_celldata_edges", 8 if q else 600, 4)
     add("uint64_padded", 4 if q else 60, 4)
     add("bare", 4 if q else 16, 2)
     # every data type x field kind x nodal/cell at least once, without any padding
@@ -506,8 +508,18 @@ def _compare(res, parsed, ctx, k, coords, conns, order, vloc, written_nodes_expe
         check_section("cell_data", parsed["cell_data"], supplied_cell, nE, onp.arange(nE), len(edges), {}, u64_cell, "cell_arrays_checked")
 
 
+_SELFTEST = {}
+
+
 def run_case(case):
     res = Res(case)
+    if "fails" not in _SELFTEST:        # once per worker: the reader against hand-written valid / corrupted files
+        from vlib.oracles import c20_vtkparse as P
+        _SELFTEST["fails"] = P.selftest()
+        res.count("parser_selftest_runs")
+    if _SELFTEST["fails"]:
+        res.inconclusive("VTK reader self-test failed: %s" % "; ".join(_SELFTEST["fails"])[:300])
+        return res
     rng = rng_of(case["seed"])
     mesh, spec = _mesh_for(case, rng)
     order = int(spec["order"])
